@@ -118,6 +118,31 @@ Theorem C15_constraints_exact :
             /\ (In y (keys (e_pd e2)) \/ In y (leaves_of d e2))).
 Proof. exact constraints_exact_meaning. Qed.
 
+(** Solve time, a PEP with SEVERAL partitions (some with one block, some never used, built through a
+    PEP object or with the class constructor: all are in the registry): the constraints received by
+    the wrapper are the concatenation over ALL partitions of their cross-block relations; no
+    partition is skipped whatever the others look like; one-block / unused partitions are neutral. *)
+Theorem C15_solve_sent_exact :
+  forall parts,
+    (forall c, In c (sent_partition_constraints parts)
+               <-> exists st, In st parts /\ In c (partition_constraints st))
+    /\ (forall l1 st l2, sent_partition_constraints (l1 ++ st :: l2)
+          = sent_partition_constraints l1 ++ partition_constraints st ++ sent_partition_constraints l2)
+    /\ (forall l1 st l2, bp_d st = 1%nat \/ bp_blocks st = [] ->
+          sent_partition_constraints (l1 ++ st :: l2) = sent_partition_constraints (l1 ++ l2))
+    /\ (2 * length (sent_partition_constraints parts)
+        = nsum (map (fun st => length (bp_blocks st) * length (bp_blocks st) * (bp_d st * (bp_d st - 1))) parts))%nat.
+Proof. exact solve_sent_exact. Qed.
+
+(** ... and they hold under a valuation iff in EVERY partition all pairs of different blocks of all
+    the points it decomposed are orthogonal. *)
+Theorem C15_solve_sent_meaning :
+  forall (E : ips) (rho : nat -> E) (phi : nat -> R) (hs : list hist),
+    (forall h, In h hs -> h_ok h) ->
+    ((forall c, In c (sent_partition_constraints (map h_state hs)) -> holds rho phi c)
+     <-> forall h, In h hs -> all_orthogonal rho (h_d h) (h_ghost h)).
+Proof. exact solve_sent_meaning. Qed.
+
 (** Real coordinate-block projections always satisfy the model: for every coordinate partition of
     R^n into d blocks and every values of the other leaves, valuing the fresh leaves by the true
     projections makes every block (the remainder included) the projection of the point's value; the
@@ -203,6 +228,23 @@ Example C15_example_trace :
   /\ nth 0 (partition_constraints st) ([], Ineq) = ([(KG 4 3, 1%Q)], Equ).
 Proof. vm_compute. repeat split. Qed.
 
+(** a PEP with an unused 2-block partition, the 3-block partition above and a used one-block
+    partition: exactly the 27 relations of the 3-block partition reach the wrapper *)
+Example C15_example_solve :
+  let hs := [(2, 0, []); (3, 3, ex_ops); (1, 10, [OGet 0 [(0%nat, 1%Q)] 0])] in
+  (forall h, In h hs -> h_ok h)
+  /\ length (sent_partition_constraints (map h_state hs)) = 27
+  /\ sent_partition_constraints (map h_state hs) = partition_constraints (h_state (3, 3, ex_ops)).
+Proof.
+  cbv zeta. split.
+  - intros h [<-|[<-|[<-|[]]]].
+    + exact I.
+    + exact C15_example_ok.
+    + unfold h_ok. cbn. unfold NoDupKeys. cbn. repeat split; try (repeat constructor; cbn; intuition discriminate).
+      intros x [<-|[]]. lia.
+  - vm_compute. split; reflexivity.
+Qed.
+
 (** the hypotheses of C15_real are satisfiable: R^3, blocks {0, 2} and {1} *)
 Example C15_example_partition :
   forall i, (i < 3)%nat -> ((fun i => i mod 2) i < 2)%nat.
@@ -224,6 +266,8 @@ Print Assumptions C15_idempotent.
 Print Assumptions C15_one_block.
 Print Assumptions C15_constraints_exact_list.
 Print Assumptions C15_constraints_exact.
+Print Assumptions C15_solve_sent_exact.
+Print Assumptions C15_solve_sent_meaning.
 Print Assumptions C15_real.
 Print Assumptions C15_masks.
 Print Assumptions C15_two_objects.
